@@ -160,4 +160,22 @@ theorem bigdec_pick_eq (c : BigCfg) (st : BigSt) (parentHost : Nat) (hl : st.use
       pickLoopSrc c st.used parentHost st.roIndex (2 * c.ilLen + 3) st.roIndex (c.hosts.getD st.roIndex 0) true :=
   bigdec_pickLoop_eq c st.used parentHost st.roIndex hl _ _ _ _ hro
 
+
+/-- `rootIndex, _ := ro.Search(root.ID)` as the Go `int` it is: −1 when the root is not a member -/
+def searchInt (keys : List Nat) (k : Nat) : Int :=
+  match search keys k with
+  | none => -1
+  | some r => (r : Int)
+
+/-- the guard of `NewRosterWithRoot` (`if rootIndex < 0 { return nil }`), lifted from the source, is the model's: it
+holds exactly when `withRootKeys` answers "no roster" -/
+theorem bigdec_withRoot_guard (keys : List Nat) (k : Nat) :
+    Gen.C12Big.withRoot_guard (searchInt keys k) = (withRootKeys keys k).isNone := by
+  unfold searchInt withRootKeys Gen.C12Big.withRoot_guard
+  cases search keys k with
+  | none => simp
+  | some r =>
+    have : ¬ ((r : Int) < 0) := by omega
+    simp [this]
+
 end C12
